@@ -6,5 +6,4 @@ def run(ctx):
     ctx.assumptions += ["scenarios: fn returns / panics / runtime.Goexit; panicFn absent / present / present and panicking; up to 3 cleanups each returning or panicking (all 135 combinations); TLC checks HandlerFirst, CleanupOrder, NoEscape, AllCleanups and termination on the specification and prints the event log of every scenario; the real Recover must produce exactly that log"]
 
 def replay(ctx, rp):
-    vlib.log("replay: the file holds the concrete scenario; re-run ./check X03")
-    return 2
+    return vlib.replay_any(ctx, rp)
